@@ -1,11 +1,15 @@
 import Driver.Util
 import Driver.Ops.Core
+import Driver.Ops.Fs
+import Driver.Ops.Compile
 /-! Registry of operation handlers: each model area adds one import above and one entry below. -/
 open Lean
 namespace Pepper.Driver
 
 def handlers : List (String → Json → Option Json) := [
-  Core.handle?
+  Core.handle?,
+  Fs.handle?,
+  Compile.handle?
 ]
 
 def handle (j : Json) : Json :=
